@@ -15,7 +15,7 @@ from harness import common
 from harness.common import zlist, zlistlist, zlit, blit
 from tools import targets
 
-HEADER = "From Precond Require Import Base.PyLib C06.Records C06.Ref C06.Check.\nOpen Scope Z_scope.\n"
+HEADER = "From Precond Require Import Base.PyLib Base.Tensor C06.Records C06.Ref C06.Check.\nOpen Scope Z_scope.\n"
 
 
 def shapes_upto(rank, dims):
@@ -97,9 +97,13 @@ def term_for(r, mod_check="chk"):
     return "chk_merge %s %s %s" % (zlist(c["shape"]), zlit(c["merge"]), zlist(r["out"]))
   if k == "partition":
     splits = "[" + "; ".join("(%s, %s)" % (zlit(i), zlist(ind)) for i, ind in r["splits"]) + "]"
-    return "chk_partition %s %s %s %s %s" % (zlist(c["shape"]), zlit(c["block"]),
-                                            zlistlist(r["split_sizes"]), splits,
-                                            zlistlist(r["block_shapes"]))
+    t = "chk_partition %s %s %s %s %s" % (zlist(c["shape"]), zlit(c["block"]),
+                                         zlistlist(r["split_sizes"]), splits,
+                                         zlistlist(r["block_shapes"]))
+    if "blocks_flat" in r:
+      t = "(%s) && chk_blocks %s %s %s" % (t, zlist(c["shape"]), zlit(c["block"]),
+                                           zlistlist(r["blocks_flat"]))
+    return t
   if k == "precond":
     return "chk_precond %s %s %s %s %s %s %s %s %s %s" % (
         zlist(c["shape"]), zlit(c["block"]), zlit(c["merge"]), zlit(c["ptype"]), zlit(c["cr"]),
